@@ -185,6 +185,15 @@ def diamonds(tier):
     for order in ("edges_first", "reversed"):
         out.append(diamond(order=order, slow_sink=True, wc=2))
     out.append(diamond(bd=("call", BD), cap=2))
+    for ek in ("cconvA", "sconvA", "cconvN"):
+        c = diamond(until=20, n=3)
+        c["edges"] = [EDGE_KINDS[ek](e["id"], e["src"], e["dst"], 2) if e["id"] == "I2" else e for e in c["edges"]]
+        c["tag"] = c["tag"][:-1] + ",I2=%s)" % ek
+        out.append(c)
+        c = diamond(until=20, n=3, eout="buf")
+        c["edges"] = [EDGE_KINDS[ek](e["id"], e["src"], e["dst"], 2) if e["id"] in ("I1", "O2") else e for e in c["edges"]]
+        c["tag"] = c["tag"][:-1] + ",I1,O2=%s)" % ek
+        out.append(c)
     for ek in ("fleet", "bufF", "bufL"):
         out.append(diamond(ein=ek, until=20, n=3))
         out.append(diamond(ein=ek, until=20, n=3, pd=[2, 3], wc=1))
@@ -388,6 +397,8 @@ def invalid_configs(tier):
     c = base(); c["edges"][0]["cap"] = 0; c["why"] = "buffer capacity 0"; out.append(c)
     c = base(); c["edges"][1]["cap"] = -1; c["why"] = "buffer capacity -1"; out.append(c)
     c = base(); c["edges"][0]["mode"] = "RANDOM"; c["why"] = "unknown buffer mode"; out.append(c)
+    for m in ("fifo", "Lifo", "", None, "FIFO "):
+        c = base(); c["edges"][1]["mode"] = m; c["why"] = "buffer mode %r (only 'FIFO' and 'LIFO' are documented)" % (m,); out.append(c)
     c = base(); c["edges"][0]["delay"] = -1; c["why"] = "negative constant buffer delay"; out.append(c)
     c = base(); c["edges"][0]["delay"] = ("call", [-1]); c["why"] = "negative buffer delay from a callable"; out.append(c)
     c = base(); c["nodes"][1]["pd"] = -1; c["why"] = "negative constant processing delay"; out.append(c)
